@@ -79,8 +79,8 @@ func VerifDecide(name string, a []string) (string, error) {
 		lock := &Lock{expriedTime: verifI(a[2])}
 		al := &AofLock{CommandTime: verifU(a[3])}
 		return strconv.Itoa(int((&Aof{}).GetAofLockExpriedTime(cmd, lock, al))), nil
-	case "GetLockCommandExpriedTime": // rec_eflag rec_expried command_time now
-		al := &AofLock{ExpriedFlag: uint16(verifU(a[0])), ExpriedTime: uint16(verifU(a[1])), CommandTime: verifU(a[2])}
+	case "GetLockCommandExpriedTime": // rec_eflag rec_expried command_time now rec_start
+		al := &AofLock{ExpriedFlag: uint16(verifU(a[0])), ExpriedTime: uint16(verifU(a[1])), CommandTime: verifU(a[2]), StartTime: uint16(verifU(a[4]))}
 		return strconv.Itoa(int((&Aof{}).GetLockCommandExpriedTime(&LockDB{currentTime: verifI(a[3])}, al))), nil
 	case "CompareAofId":
 		return strconv.Itoa((&ArbiterManager{}).CompareAofId(verifArr16(a[0]), verifArr16(a[1]))), nil
